@@ -107,6 +107,9 @@ fn field_values(name: &str, width: usize, cs: u64, flen: u64) -> Vec<u64> {
     }
     if name == "size" {
         v.extend([1 << 40, 1 << 50, 1 << 62]);
+        // around what a maximal (32 MiB) L1 table can map with this cluster size: 4 Mi entries x (cs/8) x cs
+        let lim = (4u64 << 20).saturating_mul(cs / 8).saturating_mul(cs);
+        v.extend([lim - cs, lim, lim + cs, lim.saturating_mul(2), lim.saturating_mul(8), lim.saturating_mul(8).saturating_add(cs)]);
     }
     v.retain(|x| *x <= maxv);
     v.sort();
@@ -381,7 +384,7 @@ fn run_input(inp: &Input, bases: &[(String, Vec<u8>)]) -> (String, Vec<(String, 
                         }
                         3 => {
                             let b = make_write_buf(512, 0x99);
-                            for o in [3 * cs, 0] {
+                            for o in [3 * cs, 0, (vs.max(cs) - 1) / cs * cs] {
                                 if o < vs {
                                     match crate::world::block_on(dev.write_at(&b[..512], o)) {
                                         Ok(_) => ok += 1,
@@ -429,6 +432,9 @@ fn run_input(inp: &Input, bases: &[(String, Vec<u8>)]) -> (String, Vec<(String, 
         }
     }
     let peak = PEAK.load(Ordering::Relaxed).saturating_sub(base_cur);
+    // the simulated host file lives in this process' heap too: what the operations legitimately
+    // appended to it (a relocated L1 table of an image with a huge virtual size) is file, not memory
+    let flen = flen.max(sim.borrow().files[0].len());
     let limit = 64 * flen + (64 << 20);
     if peak > limit {
         v.push(("allocation-out-of-proportion".into(), format!("{}: peak allocation {} bytes for a {}-byte file (limit {})", what, peak, flen, limit)));
